@@ -652,7 +652,7 @@ func AppendBinaryValue(data []byte, fieldType uint8, value interface{}) ([]byte,
 		data = append(data, t[:8]...)
 		return data, nil
 	case TypeNewDecimal, TypeJSON, TypeString, TypeVarString, TypeVarchar, TypeBit, TypeTinyBlob, TypeMediumBlob, TypeLongBlob, TypeBlob,
-		TypeEnum, TypeSet:
+		TypeEnum, TypeSet, TypeGeometry, TypeDecimal:
 		tmp := make([]byte, 0, len(t)+9)
 		data = append(data, AppendLenEncStringBytes(tmp, t)...)
 		return data, nil
